@@ -484,3 +484,11 @@ def check(ctx, run):  # noqa: F811
     resimulation_rule(ctx, run, "C16.R7")
     from ..registry import reconfigure_rule
     reconfigure_rule(ctx, run, "C16.R7")
+    # every history of at most 2 (thorough: 4) registry operations on every derivative class against the reference semantics
+    from ..registry import exhaustive_histories_rule
+    import os as _os
+    ncpu = _os.cpu_count() or 1
+    if ctx.tier == "thorough":
+        exhaustive_histories_rule(ctx, run, "C16.R7x", 4 if ncpu >= 8 else 3, jobs=max(1, min(16, ncpu)))
+    else:
+        exhaustive_histories_rule(ctx, run, "C16.R7x", 2)
